@@ -12,8 +12,10 @@ critical-section granularity (§5.1 of DESIGN.md). The driver (`Driver/LifeMain.
 compared with the code.
 
 The user who calls `Engine.AddConn` holds the `*Conn` and can close it at any time, also while `addConn` runs
-(`flip` is enabled from the start for `kind = add`). Between `addConn`'s closed test and its open notification that
-is a genuine race (ghost `raced`): the theorems that need it say so, and `c03_raced_*` are the counterexamples. -/
+(`flip` is enabled from the start for `kind = add`, except inside the critical section in which `addConn` tests the
+flag and assigns `c.p`). After `c.p = p` / Unlock and before the open notification that is a genuine race (ghost
+`raced`): exactly-one still holds, the ORDER (never before open) and the wait group do not — the theorems that need
+`raced = false` say so, and `c03_raced_close_before_open` is the counterexample. -/
 namespace Life
 
 theorem runAll_run : ∀ (as : List Act) (c c' : Conn), runAll c as = some c' → run c as = c' := by
@@ -54,15 +56,17 @@ theorem c03_raced_only_addconn (k : Kind) (as : List Act) : (run (mk k) as).race
 
 /-- C03 exactly one close notification: never more than one; none while the flag is clear or the teardown still
     runs; none for a conn no poller ever owned (and none for a UDP listener); exactly one for every conn a poller owns
-    (`c.p` set) once its teardown is complete — unless its `AddConn` raced with the user's own `Close`. -/
+    (`c.p` set) once its teardown is complete — in every interleaving, the `AddConn`/`Close` race included (the closed
+    test and `c.p = p` are one critical section: a teardown either runs before it and `AddConn` is refused, or after
+    it and finds the poller). -/
 theorem c03_close_once (k : Kind) (as : List Act) :
     let c := run (mk k) as
     c.closeN ≤ 1 ∧
     (c.closeN = 1 → c.closed = true ∧ c.td = none ∧ c.pSet = true ∧ c.kind ≠ .udp) ∧
-    (c.closed = true → c.td = none → c.pSet = true → c.kind ≠ .udp → c.raced = false → c.closeN = 1) := by
+    (c.closed = true → c.td = none → c.pSet = true → c.kind ≠ .udp → c.closeN = 1) := by
   intro c
   have h : LI c := li_reach k as
-  refine ⟨h.closeLe, fun h1 => ?_, fun h1 h2 h3 h4 h5 => ?_⟩
+  refine ⟨h.closeLe, fun h1 => ?_, fun h1 h2 h3 h4 => ?_⟩
   · have hp := h.closeP (by omega)
     cases hc : c.closed
     · have := (h.openFlag hc).2.2.1; omega
@@ -73,18 +77,21 @@ theorem c03_close_once (k : Kind) (as : List Act) :
   · refine (h.doneOk h1 h2).2.2.2.1 h4 ?_
     cases hu : c.unmanaged
     · rfl
-    · have := h.unmanagedOk hu h3; rw [h5] at this; cases this
+    · have := h.unmanagedOk hu; rw [h3] at this; cases this
 
-/-- … and the race is real: `Close` by the holder of the `*Conn` right after `addConn`'s closed test. The teardown
-    finds no poller (`c.p == nil`): no close notification; `addConn` carries on and announces the conn. One open
-    notification, no close notification, the wait group of the engine is never released (`Stop` hangs). -/
-theorem c03_raced_open_without_close :
-    let c := run (mk .add) [.addCheck, .flip .nil true, .teardown, .addP, .addOpen, .addTable, .addReg]
-    c.opens = 1 ∧ c.closeN = 0 ∧ c.closed = true ∧ c.td = none ∧ c.pSet = true ∧ c.wg = 1 ∧ c.raced = true := by
-  decide
+/-- every conn that was announced gets its close notification once it is torn down: "opened, never closed" is
+    unreachable (it was reachable as long as `addConn` did not test the flag: `Close`, then `AddConn` — repaired) -/
+theorem c03_no_open_without_close (k : Kind) (as : List Act) :
+    let c := run (mk k) as
+    c.opens = 1 → c.closed = true → c.td = none → c.closeN = 1 := by
+  intro c ho h1 h2
+  have h : LI c := li_reach k as
+  have hp := h.openP (by omega)
+  exact (c03_close_once k as).2.2 h1 h2 hp.1 hp.2.1
 
-/-- … one statement later (`c.p` is assigned, the open notification not yet issued): the close notification comes
-    first, the wait group goes negative (`sync: negative WaitGroup counter`) -/
+/-- the race that remains: `Close` by the holder of the `*Conn` after `addConn`'s `c.p = p` / Unlock and before its
+    open notification — the close notification comes first, the wait group goes negative (`sync: negative WaitGroup
+    counter` if the close handler's `Done` overtakes the `Add`) -/
 theorem c03_raced_close_before_open :
     let c := run (mk .add) [.addCheck, .addP, .flip .nil true, .teardown]
     c.opens = 0 ∧ c.closeN = 1 ∧ c.early = true ∧ c.wg = -1 ∧ c.raced = true := by
@@ -112,14 +119,14 @@ theorem c03_close_after_open (k : Kind) (as : List Act) :
           cases hc : c.closed
           · have := (h.openFlag hc).2.2.1; omega
           · rfl
-        have := h.phase1 (Or.inr h2) hcl; rw [hr] at this; cases this
+        have := h.phase1 h2 hcl; rw [hr] at this; cases this
       · have := h.pOpen hp (Or.inl hk) h2; omega
     · by_cases h2 : c.add = 2
       · have hcl : c.closed = true := by
           cases hc : c.closed
           · have := (h.openFlag hc).2.2.1; omega
           · rfl
-        have := h.phase1 (Or.inr h2) hcl; rw [hr] at this; cases this
+        have := h.phase1 h2 hcl; rw [hr] at this; cases this
       · have := h.pOpen hp (Or.inr hk) h2; omega
     · have := h.pOpenS hp hk; omega
 
@@ -144,7 +151,7 @@ theorem c03_wg (k : Kind) (as : List Act) :
       cases hc : c.closed
       · have := (h.openFlag hc).2.2.1; omega
       · rfl
-    have n2 : c.add ≠ 2 := fun h2 => by have := h.phase1 (Or.inr h2) hcl; rw [hr] at this; cases this
+    have n2 : c.add ≠ 2 := fun h2 => by have := h.phase1 h2 hcl; rw [hr] at this; cases this
     cases hk : c.kind with
     | add => exact Or.inl (h.pOpen hp.1 (Or.inl hk) n2)
     | acc => exact Or.inl (h.pOpen hp.1 (Or.inr hk) n2)
@@ -170,7 +177,7 @@ theorem c03_wg (k : Kind) (as : List Act) :
       have hun : c.unmanaged = false := by
         cases hu' : c.unmanaged
         · rfl
-        · have := h.unmanagedOk hu' hp; rw [hr] at this; cases this
+        · have := h.unmanagedOk hu'; rw [hp] at this; cases this
       have := hd4 hu hun
       rw [hw, if_pos hcnt, this]; decide
     · have : c.closeN = 0 := by
@@ -318,6 +325,9 @@ example : let c := run (mk .add) [.flip .nil true, .teardown, .addCheck, .addP, 
 /-- `Close` from inside the open notification: `addConn` carries on, the registration fails on the closed descriptor -/
 example : let c := run (mk .acc) [.addCheck, .addP, .addOpen, .flip .nil true, .teardown, .addTable, .addReg]
     c.closeN = 1 ∧ c.opens = 1 ∧ c.inTable = false ∧ c.reg = false ∧ c.wg = 0 := by decide
+
+/-- inside `addConn`'s critical section nobody flips the flag -/
+example : step (run (mk .add) [.addCheck]) (.flip .nil true) = none := by decide
 
 /-- nobody but the accepting poller can reach an accepted conn before it is announced -/
 example : step (run (mk .acc) [.addCheck]) (.flip .nil true) = none := by decide
